@@ -15,10 +15,15 @@ Property oracles (pint alone, reference computed independently with Fractions fr
 definitions and a registry in which no context is ever enabled): value = composition of the
 declared equations along SOME shortest chain, newest context wins, kwargs > enclosing > defaults,
 same-dimension conversions unchanged, unreachable => DimensionalityError, redefinitions visible
-exactly while active (transitively).
+exactly while active (transitively), is_compatible_with agrees with the conversion.
+
+Defect switch (DESIGN 2.6): the F5 witness is replayed first; the model runs with q_oldest = what
+the implementation shows there.  Debug hooks (never needed by ./check): C11_DEBUG=<file> dumps the
+disagreeing cases, C11_FORCE_Q=0|1 runs the model with a given switch (self-test of the differ).
 """
 from __future__ import annotations
 
+import atexit
 import concurrent.futures as cf
 import json
 import logging
@@ -272,6 +277,16 @@ def all_shortest_paths(edges, src, dst):
 
 
 # ===================================================================== a world
+_TMPDIRS = []
+
+
+@atexit.register
+def _cleanup_tmp():
+    """scratch registries live outside /repo and /verif and never survive the run"""
+    for d in _TMPDIRS:
+        shutil.rmtree(d, ignore_errors=True)
+
+
 class World:
     """a registry under test + a registry in which no context is ever enabled (reference) + contexts"""
 
@@ -291,6 +306,7 @@ class World:
             return pint.UnitRegistry(non_int_type=F, cache_folder=None)
         if self.tmp is None:
             self.tmp = tempfile.mkdtemp(prefix="c11_")
+            _TMPDIRS.append(self.tmp)
         p = os.path.join(self.tmp, f"w{len(os.listdir(self.tmp))}.txt")
         Path(p).write_text(text, encoding="utf-8")
         return pint.UnitRegistry(p, non_int_type=F, cache_folder=None)
@@ -514,6 +530,19 @@ class World:
         if isinstance(m, (int, F)) and not isinstance(m, bool):
             return ("exact", F(m))
         return ("float", float(m))
+
+    def compatible(self, frames, forms, x, src, dst):
+        """Quantity.is_compatible_with(target, *contexts, **kw) under the same activation"""
+        ureg = self.ureg
+
+        def body(extra):
+            q = ureg.Quantity(x, ureg.UnitsContainer(src))
+            a, kw = extra if extra else ((), {})
+            return q.is_compatible_with(ureg.Unit(ureg.UnitsContainer(dst)), *a, **kw)
+        try:
+            return self.run_impl(frames, forms, body)
+        except Exception as e:
+            return ("raised", type(e).__name__)
 
     def observe(self, frames, forms, src_dim=None, dst_dim=None):
         """(parameters of every active context newest first, path found) — internal observables"""
@@ -779,11 +808,13 @@ def run(ck):
     else:
         q_oldest = True
         oracle_fail("param-inherit:witness-neither", f"F5 witness gives {got}, neither 10 (as coded) nor 20 (statement)", rp5)
+    if os.environ.get("C11_FORCE_Q"):          # self-test of the differ: run the model with the wrong switch
+        q_oldest = os.environ["C11_FORCE_Q"] == "1"
     ck.extra["defect_switch_q_oldest"] = q_oldest
     w5.close()
 
     # ---------------------------------------------------------------- scenario runner
-    def scenario(w, cases, frames, forms, x, src, dst, tag, api="to", observe=False):
+    def scenario(w, cases, frames, forms, x, src, dst, tag, api="to", observe=False, compat=False):
         """run one conversion on the implementation, decide the oracles, emit the Coq case"""
         impl = w.convert(frames, forms, x, src, dst, api)
         refs, npaths = w.reference(frames, x, src, dst, "innermost")
@@ -809,6 +840,14 @@ def run(ck):
                     key = f"along-shortest:{tag}:{ctxs}"
                 oracle_fail(key, f"{impl} is not the composition of the declared equations along any shortest chain "
                             f"(expected one of {refs[:4]})", rp)
+        if compat:
+            got = w.compatible(frames, forms, x, src, dst)
+            # must agree with the conversion under the very same activation (whatever F5 does to it)
+            want = True if impl[0] in ("exact", "float") else False if impl == ("dimerr",) else None
+            if want is not None and got is not want:
+                oracle_fail(f"is-compatible-with:{tag}:{want}", f"is_compatible_with under the contexts answers {got}; the conversion "
+                            f"{'succeeds' if want else 'is refused (DimensionalityError)'}", dict(rp, observed_is_compatible_with=js(got)))
+            stats["is_compatible_with checks"] += 1
         distinct = []
         for r in refs:
             if not any(same_outcome(r, d) for d in distinct):
@@ -932,7 +971,7 @@ def run(ck):
         for ua, ub in pairs:
             fr = [{"refs": [rng.choice(ref_opts)], "kw": rng.choice(kw_for.get(name, [{}]))}]
             scenario(wd, cases_d, fr, pick_forms(rng, fr), rng.choice(xs), ua, ub, "bundled:" + name,
-                     api=rng.choice(["to", "to", "ito", "m_as"]), observe=rng.random() < 0.15)
+                     api=rng.choice(["to", "to", "ito", "m_as"]), observe=rng.random() < 0.15, compat=rng.random() < 0.2)
             stats["bundled:" + name] += 1
         # same-dimension and unlinked pairs while the context is active
         for _ in range(40 if thorough else 8):
@@ -1019,7 +1058,7 @@ def run(ck):
     ]
     for frames, src, dst in directed:
         for forms in ([["with"] * len(frames), ["enable"] * len(frames)] + ([pick_forms(rng, frames)] if frames else [])):
-            scenario(wb, cases_b, frames, forms, F(3, 2), src, dst, "directed", observe=True)
+            scenario(wb, cases_b, frames, forms, F(3, 2), src, dst, "directed", observe=True, compat=True)
             stats["directed"] += 1
     # redefinitions are visible exactly while active: before / inside / after on the SAME registry
     before = wb.convert([], [], F(1), U(ua2=1), U(ua=1))
@@ -1073,7 +1112,7 @@ def run(ck):
             if not src or not dst:
                 continue
             scenario(w, cases_w, frames, pick_forms(rng, frames), x, src, dst, "random",
-                     api=rng.choice(["to", "to", "to", "ito", "m_as"]), observe=rng.random() < 0.25)
+                     api=rng.choice(["to", "to", "to", "ito", "m_as"]), observe=rng.random() < 0.25, compat=rng.random() < 0.2)
             stats["random scenarios"] += 1
         groups.append((w, cases_w))
     ck.count("worlds", len(groups))
